@@ -86,6 +86,7 @@ def check(run):
         storecheck.cleanup_family(run, drv, n=(120 if quick else 1200))
         storecheck.stale_cleanup_family(run, n=(4 if quick else 16))
         storecheck.many_keys_lock_cleanup(run)
+        storecheck.tidy_store_cleanup(run)
         storecheck.large_store_cleanup(run, 2600 if quick else 12000)
         if drv is not None and run.corr_disagreements == 0:
             run.obligation('correspondence: %d cleanup runs of the real command agree with the model' % run.corr_programs, True)
